@@ -386,8 +386,12 @@ impl Expr {
                         let ty = ty.disregard_distractors(false);
 
                         if ty.is_optional().1.is_some() && fallback.is_optional().1.is_some() {
-                            // only check if neither of the operands is `nil`
-                            assert_eq!(ty, &fallback);
+                            // only check if neither of the operands is `nil`. The two types need not be
+                            // identical (one may be spelled through an alias): compatible is enough, and a
+                            // mismatch is a diagnostic, not a reason to abort the compiler.
+                            if !ty.eq_complex(&fallback, flags) && !fallback.eq_complex(ty, flags) {
+                                bail!("the fallback of `or` is a `{fallback}`, which does not fit the `{ty}` on its left")
+                            }
                         }
 
                         ty.clone()
